@@ -482,8 +482,15 @@ func (c *c05Chain) c05BuildTx(op c05Op) (*transaction.Transaction, error) {
 			}
 		}
 		return c.mkTx(c.neoH, "vote", []any{h(from), keyB(op.K)}, c05FeeSimple, nil, op.F)
-	case "reg": // registerCandidate with the actor's own key
-		return c.mkTx(c.neoH, "registerCandidate", []any{keyB(u.keyOfAcct[op.F])}, c05FeeRegister, nil, op.F)
+	case "reg": // registerCandidate with the actor's own key (To > 0: with the key of account To, which does not sign)
+		k := u.keyOfAcct[op.F]
+		if op.To > 0 {
+			if kk, ok := u.keyOfAcct[op.To]; ok {
+				k = kk
+			}
+		}
+		price := c05Big(c05DumpChain(c.bc, c.u).RegPrice).Int64()
+		return c.mkTx(c.neoH, "registerCandidate", []any{keyB(k)}, price+10_0000_0000, nil, op.F)
 	case "regpay": // registration by GAS payment to the NEO contract (Echidna): amount A, data = own key
 		return c.mkTx(c.gasH, "transfer", []any{h(op.F), c.neoH, op.A, keyB(u.keyOfAcct[op.F])}, c05FeeSimple, nil, op.F)
 	case "unreg":
